@@ -48,6 +48,16 @@ OPEN_TYPE_oer_get(const asn_codec_ctx_t *opt_codec_ctx,
         }
     }
 
+    if(*memb_ptr2 == NULL) {
+        /* Optional member: allocate the Open Type structure itself */
+        const asn_CHOICE_specifics_t *specs =
+            (const asn_CHOICE_specifics_t *)elm->type->specifics;
+        *memb_ptr2 = CALLOC(1, specs->struct_size);
+        if(*memb_ptr2 == NULL) {
+            ASN__DECODE_FAILED;
+        }
+    }
+
     inner_value =
         (char *)*memb_ptr2
         + elm->type->elements[selected.presence_index - 1].memb_offset;
@@ -79,12 +89,12 @@ OPEN_TYPE_oer_get(const asn_codec_ctx_t *opt_codec_ctx,
     if(*memb_ptr2) {
         const asn_CHOICE_specifics_t *specs =
             (const asn_CHOICE_specifics_t *)elm->type->specifics;
+        ASN_STRUCT_FREE_CONTENTS_ONLY(*selected.type_descriptor,
+                                      inner_value);
         if(elm->flags & ATF_POINTER) {
-            ASN_STRUCT_FREE(*selected.type_descriptor, inner_value);
+            FREEMEM(*memb_ptr2);
             *memb_ptr2 = NULL;
         } else {
-            ASN_STRUCT_FREE_CONTENTS_ONLY(*selected.type_descriptor,
-                                          inner_value);
             memset(*memb_ptr2, 0, specs->struct_size);
         }
     }
